@@ -21,7 +21,7 @@ PROP_ORACLES = {
     'C11': ['composite.memory', 'composite.altroot', 'composite.physical', 'transfer', 'copydir'],
     'C12': ['paths', 'tree.memory', 'tree.altroot', 'walk.vanish', 'faults', 'hostile.physical'],
     'C13': ['paths', 'reader', 'writer', 'tree.memory', 'tree.altroot', 'tree.overlay', 'tree.physical', 'union.overlay', 'overlay', 'transfer', 'handles', 'hostile.physical', 'times', 'embedded', 'adiff:hostile', 'adiff:reader', 'adiff:schedule', 'adiff:steps.memory'],
-    'C14': ['reader', 'writer', 'handles'],
+    'C14': ['reader', 'writer', 'handles', 'tree.physical'],
     'C15': ['adiff:steps.memory', 'adiff:steps.altroot', 'adiff:steps.overlay', 'adiff:steps.physical', 'adiff:reader', 'adiff:schedule', 'adiff:hostile', 'adiff:transfer', 'adiff:handles'],
     'C18': ['embedded'],
     'C19': ['times'],
@@ -31,7 +31,7 @@ BOUNDS = {
     'paths': 'all join arguments over {/ . a é blank} up to length 5 (deep: 6) x 5 bases, plus parent/filename/extension/root of every result; equality of paths within and across filesystem instances',
     'reader': 'contents of length 0,1,3 x all scripts of 2 (deep: 3) read/seek calls from 17 operations incl. extreme offsets',
     'writer': 'create/append sessions x all scripts of 3 (deep: 4) write/seek/flush calls from 9 operations',
-    'tree.memory': 'all sequences of 2 (deep: 3) operations (5 primitives plus move_file / copy_file to a fixed destination) over the 14-path universe (incl. prefix siblings a/ab/a.b with a child below ab, a name that starts with the own directory name of the altroot, a directory nested in one of the same name a/a, a multi-byte directory with a child, a dot-file, a name containing a backslash) on MemoryFS, every observation (incl. walk_dir from the root: every entry once, directories first) compared with the abstract tree after every step',
+    'tree.memory': 'all sequences of 2 (deep: 3) operations (5 primitives plus move_file / copy_file to a fixed destination) over the 14-path universe (incl. prefix siblings a/ab/a.b with a child below ab, a name that starts with the own directory name of the altroot, a directory nested in one of the same name a/a, a multi-byte directory with a child, a dot-file whose name starts with two dots, a name containing a backslash) on MemoryFS, every observation (incl. walk_dir from the root: every entry once, directories first) compared with the abstract tree after every step',
     'tree.altroot': 'same sequences on AltrootFS over MemoryFS rooted at /r, plus: nothing outside /r changes',
     'tree.overlay': 'same sequences (length 2) on OverlayFS over two MemoryFS layers with an empty lower layer',
     'tree.stack': 'the same sequences (length 2) on stacked adapters: altroot of altroot, altroot over an overlay, an overlay whose layers are altroots, an overlay whose upper layer is an overlay, an overlay of 4 layers (lower layers empty): plain tree semantics, lower layers stay empty',
